@@ -2677,6 +2677,8 @@ class Engine(object):
                 return True
             if c is list and isinstance(v, PList):
                 return True
+            if getattr(c, '__name__', '') == 'Iterable' and getattr(c, '__module__', '').startswith('collections') and isinstance(v, (PList, PGen, tuple, list, str, SStr, SSeq)):
+                return True
             if c is dict and isinstance(v, PDict):
                 return True
             if c is tuple and isinstance(v, SSeq):
